@@ -102,7 +102,7 @@ func decoderUsesNumber(c *Ctx) {
 
 // c11Round2: websocket rules from the second round.
 func c11Round2(c *Ctx) {
-	c.R.Rule("operation-frames-carry-id", "package transport: every message literal whose type is data, error or complete stores the operation id", 3)
+	c.R.Rule("operation-frames-carry-id", "package transport: every struct literal that names the message type data, error or complete by a constant also stores the operation id", 3)
 	opTypes := map[string]bool{"dataMessageType": true, "errorMessageType": true, "completeMessageType": true}
 	typeName := map[int64]string{}
 	if tp := c.W.TPkg(pkgTransport); tp != nil {
@@ -123,17 +123,31 @@ func c11Round2(c *Ctx) {
 					continue
 				}
 				nt := namedStruct(al.Type())
-				if nt == nil || nt.Obj().Name() != "message" || nt.Obj().Pkg() == nil || nt.Obj().Pkg().Path() != pkgTransport {
+				if nt == nil || nt.Obj().Pkg() == nil || nt.Obj().Pkg().Path() != pkgTransport {
 					continue
 				}
-				t, okT := msgLitType(al)
+				// a literal of the package (message, or an intermediate such as an envelope) that names its message type by a constant
+				t, okT := int64(0), false
+				for _, r := range an.Referrers(al) {
+					fa, ok := r.(*ssa.FieldAddr)
+					if !ok {
+						continue
+					}
+					for _, r2 := range an.Referrers(fa) {
+						if st, ok := r2.(*ssa.Store); ok && st.Addr == ssa.Value(fa) && an.NamedIs(st.Val.Type(), pkgTransport, "messageType") {
+							if k, isC := an.ConstInt(st.Val); isC {
+								t, okT = k, true
+							}
+						}
+					}
+				}
 				if !okT || !opTypes[typeName[t]] {
 					continue
 				}
 				n++
 				hasID := false
 				for _, r := range an.Referrers(al) {
-					if fa, ok := r.(*ssa.FieldAddr); ok && fieldNameOf(fa) == "id" {
+					if fa, ok := r.(*ssa.FieldAddr); ok && strings.EqualFold(fieldNameOf(fa), "id") {
 						for _, r2 := range an.Referrers(fa) {
 							if st, ok := r2.(*ssa.Store); ok && st.Addr == ssa.Value(fa) {
 								hasID = true
